@@ -95,22 +95,24 @@ fn exhaustive(ctx: &mut Ctx, maxlen: usize) {
                 }
                 if has_oneway(&syms) {
                     for depth in 1..=len {
-                        acc.case(if nontrivial(&syms) { Some(hash64(&(&syms, depth, "mem"))) } else { None });
+                      for style in 0..(if len <= 2 { 4u8 } else { 1u8 }) {
+                        acc.case(if nontrivial(&syms) { Some(hash64(&(&syms, depth, style, "mem"))) } else { None });
                         acc.class("mem:enumerated");
-                        let r = c01::run_mem(&svc, &syms, depth, 0)
+                        let r = c01::run_mem(&svc, &syms, depth, style)
                             .map(|_| ())
-                            .and_then(|_| if depth == len { twin_check(&svc, &syms, 0) } else { Ok(()) });
+                            .and_then(|_| if depth == len { twin_check(&svc, &syms, style) } else { Ok(()) });
                         if let Err(f) = r {
                             acc.fail(
-                                (len as u64) << 40 | (idx as u64) << 4 | depth as u64,
+                                (len as u64) << 40 | (idx as u64) << 6 | (depth as u64) << 3 | style as u64,
                                 &f.key,
                                 &f.what,
-                                c01::case_json(&syms, depth, 0, "mem"),
+                                c01::case_json(&syms, depth, style, "mem"),
                             );
                         }
                         if idx % 1013 == 0 {
-                            acc.sample(|| c01::case_json(&syms, depth, 0, "mem"));
+                            acc.sample(|| c01::case_json(&syms, depth, style, "mem"));
                         }
+                      }
                     }
                 }
                 idx += nw;
